@@ -133,3 +133,41 @@ func init() {
 			return []Batch{{Mode: "race", Race: true, Procs: 4, Timeout: 15 * time.Minute}, {Mode: "race", Race: true, Procs: 16, Timeout: 15 * time.Minute}, {Mode: "plain", Procs: 2, Timeout: 15 * time.Minute}, {Mode: "plain", Procs: 8, Timeout: 15 * time.Minute}}
 		}}
 }
+
+func init() {
+	specs["C09"] = &Spec{ID: "C09", Level: "fault_enumeration", Parallel: 2,
+		Assumptions: []string{loopAssumption, "time is the property: verdicts use measured times with 1.5 s of scheduling slack on the late side and 7% on the early side; an in-time reply creates an obligation only if the farm measurably sent it within 0.8 T of receiving the request; in the parallel leak batches a failed must-succeed call is confirmed by a second attempt", "library sockets are recognised by their local address (clients bind 127.0.0.2, listeners 127.0.0.3; the farm lives on 127.0.0.1)", "SYN black holes cannot be produced on loopback without privileges: the dial path is driven by refused / reset / stalled peers and unreachable networks"},
+		Plan: func(tier string) []Batch {
+			if tier == "thorough" {
+				return []Batch{{Mode: "plain", Procs: 8, Timeout: 60 * time.Minute}, {Mode: "plain", Procs: 8, Timeout: 60 * time.Minute}, {Mode: "race", Race: true, Procs: 8, Timeout: 60 * time.Minute}, {Mode: "plain", Procs: 2, Timeout: 60 * time.Minute}}
+			}
+			return []Batch{{Mode: "plain", Procs: 8, Timeout: 20 * time.Minute}, {Mode: "race", Race: true, Procs: 8, Timeout: 20 * time.Minute}}
+		}}
+}
+
+func init() {
+	specs["C10"] = &Spec{ID: "C10", Level: "exploration", Parallel: 6,
+		Assumptions: []string{loopAssumption, "senders are paced by acknowledgement and /proc/net/snmp RcvbufErrors is read around every cycle: a kernel drop makes a missing event inconclusive", "an event whose timestamp is BCD-clean but not a calendar date/time, or whose hidden fields are malformed, may be delivered (zero timestamp) or reported as an error - exactly one of the two", "callbacks are not promised to have completed when Listen returns: the harness waits 20 ms before reading its logs", "system date-times that do not exist in the process zone are don't-care"},
+		Plan: func(tier string) []Batch {
+			b := same(n(tier, 2, 6), Batch{Mode: "plain", Timeout: 30 * time.Minute, Procs: 4})
+			b = append(b, same(n(tier, 1, 3), Batch{Mode: "race", Race: true, Timeout: 30 * time.Minute, Procs: 4})...)
+			zones := []string{"America/New_York", "Europe/London", "America/Santiago", "Australia/Lord_Howe", "Asia/Beirut", "Pacific/Auckland"}
+			if tier == "thorough" {
+				zones = append(zones, "Europe/Berlin", "America/Sao_Paulo", "America/Havana", "Asia/Tehran", "Africa/Cairo", "America/St_Johns", "Pacific/Chatham", "Asia/Gaza", "Atlantic/Azores", "America/Asuncion")
+			}
+			for _, z := range zones {
+				b = append(b, Batch{Mode: "tz", Env: []string{"TZ=" + z}, Timeout: 20 * time.Minute, Procs: 4})
+			}
+			return b
+		}}
+}
+
+func init() {
+	specs["C11"] = &Spec{ID: "C11", Level: "exploration", Parallel: 6,
+		Assumptions: []string{hookAssumption, loopAssumption, "a reply counts as received before the timeout only if it measurably left the farm within 0.6 T; replies sent between 0.6 T and T+0.3 s are don't-care", "a get-device reply whose date is BCD-clean but not a calendar date may yield an entry with the zero date or no entry", "serial number 0 in a reply is not generated (the statement is silent)"},
+		Plan: func(tier string) []Batch {
+			b := same(n(tier, 4, 8), Batch{Mode: "hook", Timeout: 20 * time.Minute})
+			b = append(b, same(n(tier, 1, 3), Batch{Mode: "loopback", Timeout: 30 * time.Minute, Procs: 8})...)
+			return append(b, Batch{Mode: "race", Race: true, Timeout: 30 * time.Minute, Procs: 8})
+		}}
+}
